@@ -483,14 +483,16 @@ fn lattice_cases() -> u64 {
 	NTYPES * start_modes().len() as u64 * DURS.len() as u64 * easings().len() as u64
 }
 /// tweens observed through the whole engine (AudioManager + device callbacks of arbitrary sizes)
-const ENGINE_CASES: u64 = 6;
-const ENGINE_NAMES: [&str; 6] = [
+const ENGINE_CASES: u64 = 8;
+const ENGINE_NAMES: [&str; 8] = [
 	"engine: tweener modulator 0->1 over 2 s linked to a sound's volume, 6 callback partitions of 32 frames (internal buffer 4)",
 	"engine: sound set_volume(-20 dB -> 0 dB over 2 s), 6 callback partitions",
 	"engine: clock set_speed(1 -> 4 ticks/s over 2 s) while the clock is not ticking, start 3 s later, 6 callback partitions",
 	"engine: clock set_speed(1 -> 4 ticks/s over 2 s) on a ticking clock, 6 callback partitions",
 	"engine: sound set_volume(linked to a tweener, 1 s tween); after the tween the tweener moves and the volume follows, 6 callback partitions",
 	"engine: listener set_position tween seen by an effect on a spatial track: each chunk starts where the previous one ended, 6 callback partitions",
+	"engine: spatial track set_position(x = 1 -> 17 over 2 s) while a sound plays on it, linear attenuation over 1..17: the level follows the distance frame by frame, 6 callback partitions",
+	"engine: streaming sound set_volume(0 dB -> -20 dB over 1 s) while its decoder delivers nothing for 4 s (6 callback partitions): when audio comes back the tween has long ended",
 ];
 
 impl C06 {
@@ -1211,6 +1213,86 @@ fn engine_pass(which: u64, ctx: &mut Ctx) {
 				ctx.nontrivial_extra += 1;
 				ctx.state(hash64(&(which, g.len())));
 				ctx.outcome(hash64(&(which, g.len())));
+			}
+			6 => {
+				use kira::track::SpatialTrackBuilder;
+				let l = m.add_listener(glam::Vec3::ZERO, glam::Quat::IDENTITY).expect("listener");
+				let mut t = m
+					.add_spatial_sub_track(&l, glam::Vec3::new(1.0, 0.0, 0.0), SpatialTrackBuilder::new().distances((1.0, 17.0)).attenuation_function(Some(Easing::Linear)).spatialization_strength(0.0))
+					.expect("spatial track");
+				let _s = t.play(rig::static_data(SR, rig::dc_frames(4, 0.5)).loop_region(Region::from(..))).expect("play");
+				let mut sink = vec![];
+				rig::render_stereo(&mut m, IBS, &mut sink);
+				t.set_position(glam::Vec3::new(17.0, 0.0, 0.0), tw2);
+				let mut out: Vec<(f32, f32)> = vec![];
+				for &n in parts.iter() {
+					rig::render_stereo(&mut m, n, &mut out);
+					ctx.transitions += 1;
+				}
+				// the spatial stage samples the positions at the START of each frame (i / n inside a chunk): frame f is f / 16 of the
+				// way; the last chunk of the tween may bend (one update of timing), the rest is exact
+				let level = |frac: f64| if frac >= 1.0 { 0.0 } else { 0.5 * 10f64.powf(-3.0 * frac) };
+				let mut bad = None;
+				for (f, o) in out.iter().enumerate() {
+					let exact = f < 11 || f >= 20;
+					let want = level(f as f64 / 16.0);
+					let ok = if exact { (o.0 as f64 - want).abs() <= 2e-5 } else { (o.0 as f64) <= level(10.0 / 16.0) + 2e-5 && (o.0 as f64) >= -2e-5 };
+					if !ok {
+						bad = Some(format!("frame {} after the command: level {}, expected {} (distance {})", f, o.0, want, 1.0 + 16.0 * (f as f64 / 16.0).min(1.0)));
+						break;
+					}
+				}
+				if let Some(b) = bad {
+					ctx.fail("a tweened emitter position does not follow start + (target - start) x elapsed / duration where it is consumed (the spatial track's attenuation) :: engine #6", format!("{}; {}; left channel {:?}", desc(), b, out.iter().map(|f| f.0).collect::<Vec<_>>()));
+				}
+				ctx.nontrivial_extra += 1;
+				ctx.state(hash64(&(which, out.len())));
+				ctx.outcome(hash64(&(which, out.len())));
+			}
+			7 => {
+				use crate::pacer;
+				use crate::probes::ScriptedDecoder;
+				pacer::set_mode(pacer::Mode::Pacer);
+				let first = pacer::count();
+				let (dec, stats) = ScriptedDecoder::new(rig::dc_frames(4096, 0.5), SR, vec![3, 1, 2], 1);
+				let mut h = m.play(kira::sound::streaming::StreamingSoundData::from_decoder(dec)).map_err(|_| ()).expect("play");
+				let mut sink = vec![];
+				pacer::step(first, 8);
+				rig::render_stereo(&mut m, IBS, &mut sink);
+				let heard_before = sink.iter().any(|f| f.0 != 0.0);
+				h.set_volume(-20.0, Tween { start_time: StartTime::Immediate, duration: Duration::from_secs(1), easing: Easing::Linear });
+				// the decoder delivers nothing: after the 4 buffered frames the sound waits for data for the rest of 4 s
+				let mut starved: Vec<(f32, f32)> = vec![];
+				for &n in parts.iter() {
+					rig::render_stereo(&mut m, n, &mut starved);
+					ctx.transitions += 1;
+				}
+				// audio comes back
+				let mut out: Vec<(f32, f32)> = vec![];
+				for _ in 0..3 {
+					pacer::step(first, 16);
+					rig::render_stereo(&mut m, IBS, &mut out);
+				}
+				let want = 0.5 * 10f32.powf(-1.0);
+				let first_heard = out.iter().position(|f| f.0 != 0.0);
+				let silent_tail = starved.iter().rev().take(8).all(|f| f.0 == 0.0);
+				let mut bad = None;
+				if !heard_before || !silent_tail || first_heard.is_none() {
+					bad = Some(format!("machinery: the scene did not starve / resume as arranged (heard before {}, silent while starved {}, heard again {:?})", heard_before, silent_tail, first_heard));
+				} else if let Some(i) = out.iter().skip(first_heard.unwrap()).position(|f| (f.0 - want).abs() > 1e-6) {
+					bad = Some(format!("frame {} after audio came back: level {}, expected the tween's target level {} (the tween ended 3 s earlier)", i, out[first_heard.unwrap() + i].0, want));
+				}
+				if let Some(b) = bad {
+					ctx.fail("from the end of the tween onward the value is not the target: time spent waiting for the decoder was not counted :: engine #7", format!("{}; {}; left channel after the starvation {:?}", desc(), b, out.iter().map(|f| f.0).collect::<Vec<_>>()));
+				}
+				h.stop(Tween { duration: Duration::ZERO, ..Default::default() });
+				rig::render_stereo(&mut m, 1, &mut sink);
+				drop(m);
+				crate::probes::reap_decoder(first, &stats);
+				ctx.nontrivial_extra += 1;
+				ctx.state(hash64(&(which, out.len())));
+				ctx.outcome(hash64(&(which, out.len())));
+				continue;
 			}
 			_ => {
 				let mut c = m.add_clock(ClockSpeed::TicksPerSecond(1.0)).expect("clock");
